@@ -15,6 +15,12 @@ for d in sorted(glob.glob(os.path.join(ROOT, "seeded", "C*"))):
     if os.path.exists(os.path.join(d, "OBSOLETE")):
         det = "(obsolete: " + open(os.path.join(d, "OBSOLETE")).read().strip() + ")"
         m["missed_by"] = ""
+    if os.path.exists(os.path.join(d, "NOT_COVERED_BY_STATEMENT")):
+        det = "— (" + open(os.path.join(d, "NOT_COVERED_BY_STATEMENT")).read().strip() + ")"
+        m["missed_by"] = ""
+    # the check of the seed's own property is named under "missed by" only when no other check catches the seed either
+    if m.get("detected_by_quick_check") and m.get("missed_by"):
+        m["missed_by"] = re.sub(r"\(MISSED \((C\d\d) quick\) rc=0\)", "", m["missed_by"]) + " (not its statement: see the check that catches it)"
     rows.append("| %s | %s | %s | %s |" % (m["seed"], what.strip(), det, m.get("missed_by") or ""))
 table = "| seed | change (from the author's notes) | caught by quick check | missed by |\n|---|---|---|---|\n" + "\n".join(rows)
 p = os.path.join(ROOT, "DESIGN.md")
